@@ -4,7 +4,7 @@
 // implementation returned; the extracted Gallina model (coq/c11/Run.v) judges the lines.
 // Streams:
 //
-//	c11pairs  all ordered pairs of the universe: (cmp a b r), (ops a b eq ne lt le gt ge);
+//	c11pairs  all ordered pairs of the universe: (cmp a b r eq ne lt le gt ge);
 //	          implementation-only oracles on the property's domain (NaN-free, |float| < 2^53):
 //	          reflexivity, Compare(b,a) = -Compare(a,b), transitivity over ALL ordered triples
 //	          (computed from the pair matrix), operators = projections of Compare.
@@ -81,7 +81,7 @@ func numbers() []any {
 	for _, b := range []*big.Int{big.NewInt(0), big.NewInt(1), big.NewInt(-1), big.NewInt(5), pow2(53), new(big.Int).Add(pow2(53), big.NewInt(1)),
 		new(big.Int).Neg(new(big.Int).Add(pow2(53), big.NewInt(1))), pow2(63), new(big.Int).Add(pow2(63), big.NewInt(1)), new(big.Int).Neg(new(big.Int).Add(pow2(63), big.NewInt(1))),
 		pow2(64), bigOf("1000000000000000000000000000000"), bigOf("-1000000000000000000000000000000"), bigOf("1000000000000000000000000000001"),
-		pow2(1023), new(big.Int).Sub(pow2(1024), pow2(970)), new(big.Int).Sub(pow2(1024), pow2(969)), pow2(1024), new(big.Int).Neg(pow2(1024)), pow2(2000)} {
+		pow2(1023), new(big.Int).Sub(pow2(1024), pow2(970)), new(big.Int).Sub(pow2(1024), pow2(969)), pow2(1024), new(big.Int).Neg(pow2(1024)), pow2(1100)} {
 		xs = append(xs, b)
 	}
 	for _, f := range []float64{0, math.Copysign(0, -1), 0.5, -0.5, 1, -1, 1.5, 2, 2.5, 3, 10, 0.1, 1e-300, 5e-324, -5e-324, 100.25,
@@ -227,25 +227,29 @@ func runPairs(c *Ctx) {
 	m := make([][]int8, n)
 	for i := range u {
 		m[i] = make([]int8, n)
-		for j := range u {
+	}
+	// all ordered pairs, in a scattered order (costly operands such as 300-digit integers are spread
+	// evenly over the file, which the model run splits into contiguous shards)
+	for d := 0; d < n; d++ {
+		for i := range u {
+			j := (i + d) % n
 			r := gojq.Compare(u[i], u[j])
 			m[i][j] = int8(sign(r))
-			c.Emit("(cmp %s %s %d)", sx[i], sx[j], r)
-			c.Count("cmp")
 			res := run1(ops, nil, u[i], u[j])
 			bs, ok := res.([]any)
 			if !ok || len(bs) != 6 {
 				c.Violation("(ops %s %s %s)", sx[i], sx[j], SexpVal(res))
+				c.Emit("(cmp %s %s %d)", sx[i], sx[j], r)
 				continue
 			}
-			c.Emit("(ops %s %s %s %s %s %s %s %s)", sx[i], sx[j], boolAtom(bs[0]), boolAtom(bs[1]), boolAtom(bs[2]), boolAtom(bs[3]), boolAtom(bs[4]), boolAtom(bs[5]))
-			c.Count("ops")
+			c.Emit("(cmp %s %s %d %s %s %s %s %s %s)", sx[i], sx[j], r, boolAtom(bs[0]), boolAtom(bs[1]), boolAtom(bs[2]), boolAtom(bs[3]), boolAtom(bs[4]), boolAtom(bs[5]))
+			c.Count("cmp+ops")
 			// operators are the projections of Compare (holds for every pair, NaN included)
 			want := []bool{r == 0, r != 0, r < 0, r <= 0, r > 0, r >= 0}
 			for k := range want {
 				if b, ok := bs[k].(bool); !ok || b != want[k] {
-					c.Violation("(ops %s %s %s %s %s %s %s %s) ; Compare=%d: operator %d is not the projection of Compare", sx[i], sx[j],
-						boolAtom(bs[0]), boolAtom(bs[1]), boolAtom(bs[2]), boolAtom(bs[3]), boolAtom(bs[4]), boolAtom(bs[5]), r, k)
+					c.Violation("(cmp %s %s %d %s %s %s %s %s %s)", sx[i], sx[j], r,
+						boolAtom(bs[0]), boolAtom(bs[1]), boolAtom(bs[2]), boolAtom(bs[3]), boolAtom(bs[4]), boolAtom(bs[5]))
 					break
 				}
 			}
